@@ -374,3 +374,43 @@ Qed.
 Theorem apply_idempotent :
   forall u old e', wf u = true -> merge u old = Some e' -> merge u e' = Some e'.
 Proof. intros u old e' W M. now apply (merge_idem_n (vsize u) u old e'). Qed.
+
+(* ---------- the canonical form used by the correspondence check keeps the content ---------- *)
+Lemma lookup_insert_kv k k0 v l :
+  lookup k (insert_kv k0 v l) = if Nat.eqb k0 k then Some v else lookup k l.
+Proof.
+  induction l as [|[k' v'] r IH]; simpl; auto.
+  destruct (Nat.leb_spec k0 k'); simpl; auto.
+  rewrite IH. destruct (Nat.eqb_spec k0 k); auto.
+  destruct (Nat.eqb_spec k' k); auto. lia.
+Qed.
+Lemma lookup_sort_kvs k l : lookup k (sort_kvs l) = lookup k l.
+Proof.
+  induction l as [|[k0 v0] r IH]; simpl; auto. now rewrite lookup_insert_kv, IH.
+Qed.
+Lemma lookup_map_norm k l :
+  lookup k (map (fun kv => (fst kv, norm (snd kv))) l) = option_map norm (lookup k l).
+Proof.
+  induction l as [|[k0 v0] r IH]; simpl; auto. destruct (Nat.eqb k0 k); auto.
+Qed.
+
+Theorem norm_get_path :
+  forall p v, get_path (norm v) p = option_map norm (get_path v p).
+Proof.
+  induction p as [|k rest IH]; intros v; [reflexivity|].
+  destruct v as [n|l]; [reflexivity|]. simpl.
+  rewrite lookup_sort_kvs, lookup_map_norm. destruct (lookup k l); simpl; auto.
+Qed.
+
+(* two values with the same canonical form hold the same leaves at the same paths *)
+Corollary norm_eq_same_leaves :
+  forall a b, norm a = norm b ->
+  forall p n, get_path a p = Some (Leaf n) <-> get_path b p = Some (Leaf n).
+Proof.
+  assert (G : forall a b, norm a = norm b -> forall p n,
+              get_path a p = Some (Leaf n) -> get_path b p = Some (Leaf n)).
+  { intros a b E p n H. pose proof (norm_get_path p a) as Ha. pose proof (norm_get_path p b) as Hb.
+    rewrite E, Hb, H in Ha. simpl in Ha.
+    destruct (get_path b p) as [[m|l]|]; simpl in Ha; inversion Ha; reflexivity. }
+  intros a b E p n. split; apply G; auto.
+Qed.
